@@ -45,6 +45,7 @@ def cells_and_config():
     cells, entries = [], []
     svcs = {'Ret': [], 'Ret2': [], 'Ret3': [], 'admin.Admin': []}
     streams = set()
+    cstreams = {}        # rpc -> 'cs' | 'bidi'
     n = 0
 
     def rpc(svc='Ret'):
@@ -54,10 +55,12 @@ def cells_and_config():
         svcs[svc].append(name)
         return name
 
-    def entry(cid, codes, policy='typical', timeout='60s', with_policy=True, targets=None, stream=False):
+    def entry(cid, codes, policy='typical', timeout='60s', with_policy=True, targets=None, stream=False, cstream=None):
         targets = targets or [('Ret', rpc())]
         if stream:
             streams.update(m for _, m in targets)
+        if cstream:
+            cstreams.update({m: cstream for _, m in targets})
         e = {'name': [{'service': f'{P}.{s}', 'method': m} for s, m in targets]}
         if timeout is not None:
             e['timeout'] = timeout
@@ -68,7 +71,7 @@ def cells_and_config():
             cells.append(dict(id=f'{cid}' + (f'@{s}.{m}' if len(targets) > 1 else ''), service=s.split('.')[-1], rpc=m, py=m.lower(),
                               package=names.import_package(P) + ('.' + s.split('.')[0] if '.' in s else ''),
                               codes=list(codes) if with_policy else [], policy=POLICIES[policy] if with_policy else None,
-                              timeout=dur(timeout), named=True, stream=stream))
+                              timeout=dur(timeout), named=True, stream=stream or cstream == 'bidi', cstream=cstream))
 
     # a service-wide entry listed *before* the entries that name methods of that service (the usual layout of published
     # configs): the method's own entry still decides; what the service-wide entry means for the other methods is not judged
@@ -92,6 +95,9 @@ def cells_and_config():
     entry('stream/policy+timeout', ['UNAVAILABLE', 'RESOURCE_EXHAUSTED'], timeout='6.5s', stream=True)
     entry('stream/timeout-only', ['UNAVAILABLE'], timeout='4s', with_policy=False, stream=True)
     entry('stream/policy-only', ['UNAVAILABLE'], policy='fractional', timeout=None, stream=True)
+    # client-streaming and bidi methods (gRPC only; driven through the sync client): defaults and explicit overrides alike
+    entry('client-stream/policy+timeout', ['UNAVAILABLE'], timeout='8.5s', cstream='cs')
+    entry('bidi/policy+timeout', ['UNAVAILABLE', 'ABORTED'], policy='fractional', timeout='5s', cstream='bidi')
     entry('two-methods', ['UNAVAILABLE'], targets=[('Ret', rpc()), ('Ret', rpc())])
     entry('two-services', ['INTERNAL'], timeout='7s', targets=[('Ret', rpc()), ('Ret2', rpc('Ret2'))])
     entry('no-codes', [], timeout='9s')
@@ -109,13 +115,14 @@ def cells_and_config():
     # an entry naming only the service (nothing is demanded of its methods: observed, not judged)
     entries.append({'name': [{'service': f'{P}.Ret2'}], 'timeout': '11s',
                     'retryPolicy': dict(TYPICAL, retryableStatusCodes=['UNAVAILABLE'])})
-    return cells, entries, svcs, streams
+    return cells, entries, svcs, streams, cstreams
 
 
 def build():
-    cells, entries, svcs, streams = cells_and_config()
+    cells, entries, svcs, streams, cstreams = cells_and_config()
     msgs = [message('Req', [field('name', 1, 'string')]), message('Resp', [field('ok', 1, 'bool')])]
-    mk = lambda m: method(m, Q('Req'), Q('Resp'), ss=m in streams, http=('post', f'/v1/{m.lower()}', '*'))
+    mk = lambda m: (method(m, Q('Req'), Q('Resp'), cs=True, ss=cstreams[m] == 'bidi') if m in cstreams else
+                    method(m, Q('Req'), Q('Resp'), ss=m in streams, http=('post', f'/v1/{m.lower()}', '*')))
     services = [service(s, [mk(m) for m in ms]) for s, ms in svcs.items() if '.' not in s]
     f = file('acme/retry/v1/retry.proto', P, messages=msgs, services=services)
     sub = file('acme/retry/v1/admin/admin.proto', P + '.admin',
